@@ -134,6 +134,12 @@ def calls_for(d):
                     vals = list(GOOD[t][:n])
                     vals[k] = BAD[t]
                     C.append(('setmulti:bad@%d/%d' % (k, n), ['setmulti 0 %s %d %s' % (hx(name), n, ' '.join(hx(v) for v in vals))]))
+        if not d.is_list and not hasp and t in BAD:
+            # two values for a scalar, one of them unconvertible: refused whatever a clean two-value call would do
+            for k in range(2):
+                vals = list(GOOD[t][:2])
+                vals[k] = BAD[t]
+                C.append(('setmulti:bad@%d/2:scalar' % k, ['setmulti 0 %s 2 %s' % (hx(name), ' '.join(hx(v) for v in vals))]))
         if hasp:
             C.append(('setopt:cb-fail', ['failat 1', 'setopt 0 %s %s' % (optloc(name), hx(GOOD[t][0])), 'failat 0']))
         elif t in BAD:
